@@ -168,6 +168,33 @@ def plan(rng, tier):
             k = rng.choice(g.model.skeys())
             op = rng.choice([["del", k], ["pop", k], ["del", k]] if mapping
                             else [["remove", k], ["discard", k]])
+        if is_tree(kind) and cfg.get("leaf") and rng.random() < 0.15 and \
+                dom.nkeys >= 2 * cfg["leaf"] + 2:
+            # directed: a range with an open EXCLUSIVE upper end over a tree
+            # whose last leaf holds exactly one key -- the search has to
+            # step back to the previous leaf, which is a ghost whose load
+            # may be what fails
+            L = cfg["leaf"]
+            n = rng.randint(2 * L + 2, min(dom.nkeys, 4 * L + 4))
+            g = common.Gen(rng, dom, kind)
+            build = []
+            count = 0
+            for k in range(n):
+                b = ["set", k, g.val()] if mapping else ["add", k]
+                g.model.apply(b)
+                build.append(b)
+                count += 1
+                if count > L:
+                    count -= count // 2     # (a split keeps the lower half)
+            for k in range(n - 1, n - count, -1):
+                b = ["del", k] if mapping else ["remove", k]
+                g.model.apply(b)
+                build.append(b)
+            from . import ranges
+            op = ["range", rng.choice(ranges.MAP_METHS if mapping
+                                      else ranges.SET_METHS),
+                  rng.choice(["omit", "omit", 0]), "omit", rng.randrange(2),
+                  1, "kw"]
         cfg["sweep"] = rng.choice([["minimize"], ["minimize"],
                                    ["some", rng.randrange(1 << 16)],
                                    ["leaves"], ["interior"]])
@@ -500,6 +527,62 @@ class _LoadWatch(object):
         self.conn = None
 
 
+def _underreferenced(c, conn):
+    """The nodes below the root of a fully loaded stored C tree are each
+    referenced by: the slots of the interior nodes that hold them, the `next`
+    of the leaf before them, the `firstbucket` of every node whose leftmost
+    leaf they are, and (unless they are new) the object cache.  Whatever else refers to them here
+    (this function) does so to all of them alike: a node whose count is
+    BELOW the others' was released once too often (an error exit that gives
+    back a reference it does not own).  -> (class, shortfall) or None"""
+    refs = {}
+    objs = {}
+
+    def ref(o):
+        objs[id(o)] = o
+        refs[id(o)] = refs.get(id(o), 0) + 1
+    todo = [c]
+    tt = type(c)
+    while todo:
+        node = todo.pop()
+        st = node.__getstate__()
+        if st is None or len(st) == 1:
+            continue
+        ref(st[1])
+        for ch in st[0][0::2]:
+            ref(ch)
+            if type(ch) is tt:
+                todo.append(ch)
+            else:
+                lst = ch.__getstate__()
+                if len(lst) > 1 and lst[1] is not None:
+                    ref(lst[1])
+        st = lst = ch = None
+    node = None
+    if len(objs) < 2:
+        return None
+    reg = {}
+    for o in conn.registered:
+        reg[id(o)] = reg.get(id(o), 0) + 1
+    o = None
+    delta = {}
+    for i in objs:
+        # (a node made by this very call -- a split -- is not in the cache)
+        # ... and the jar's list of changed objects holds those it was told
+        # about)
+        delta[i] = sys.getrefcount(objs[i]) - refs[i] - (
+            1 if objs[i]._p_oid is not None else 0) - reg.get(i, 0)
+    # what is left is this function's own doing: the `objs` table and the
+    # argument of getrefcount()
+    top = 2
+    for i in sorted(delta, key=lambda j: delta[j]):
+        if delta[i] < top:
+            return ("interior" if type(objs[i]) is tt else "leaf",
+                    top - delta[i])
+        break
+    return None
+
+
 def _one_stored(plan, dom, cfg, ctx, n, nalloc, L0, L1, h, base):
     kind = cfg["kind"]
     mapping = is_mapping(kind)
@@ -559,6 +642,17 @@ def _one_stored(plan, dom, cfg, ctx, n, nalloc, L0, L1, h, base):
             raise Violation(dict(sig, oracle="unsound",
                                  by=v.sig.get("oracle")),
                             "%s: %s" % (what, v.detail))
+    if is_tree(kind):
+        w = None
+        low = _underreferenced(c, conn)
+        if low:
+            raise Violation(dict(sig, oracle="node-released-too-often",
+                                 node=low[0]),
+                            "%s: afterwards a %s node of the tree holds %d "
+                            "reference(s) fewer than the nodes, leaf links "
+                            "and first-leaf links that point at it account "
+                            "for (it will be freed while still linked)" % (
+                                what, low[0], low[1]))
     extra = None
     if op[0] == "update":
         extra = set((dom.pkid(ops.K(dom, kk)), dom.pvid(ops.V(dom, vv)))
@@ -666,6 +760,12 @@ def _execute_stored(plan, ctx, dom, cfg):
         ctx.probe("stored-allocations-%d" % min(nalloc, 8))
         for n in range(1, min(nalloc, 64) + 1):
             _one_stored(plan, dom, cfg, ctx, n, nalloc, L0, L1, h, base)
+            # tear the world of this execution down NOW (jar, cache and
+            # nodes form cycles and the collector is off): a node the failed
+            # call released once too often is then touched after its memory
+            # was given back -- the sanitizer's business (seeded change
+            # C17-13)
+            gc.collect()
     finally:
         cm._verif_alloc_arm(0)
 
